@@ -99,6 +99,39 @@ def lake_build(targets: Sequence[str], timeout=3000) -> Tuple[bool, str]:
     return p.returncode == 0, (p.stdout + p.stderr)
 
 
+def own_imports(module: str) -> List[str]:
+    """the module and every NanoVerif.* module it imports, transitively (from the import lines of the sources)"""
+    seen, todo = [], [module]
+    while todo:
+        m = todo.pop()
+        if m in seen or not m.startswith("NanoVerif"):
+            continue
+        f = LEAN_DIR / (m.replace(".", "/") + ".lean")
+        if not f.exists():
+            continue
+        seen.append(m)
+        for line in f.read_text().splitlines():
+            if line.startswith("import "):
+                todo.append(line.split()[1])
+            elif line.strip() and not line.startswith(("--", "/-")) and not line.startswith("import"):
+                if not line.startswith(" "):
+                    break
+    return sorted(seen)
+
+
+def leanchecker(modules: Sequence[str], timeout=2400) -> Tuple[Optional[bool], str]:
+    """replay the compiled declarations of the modules through the toolchain's independent kernel re-checker; None = tool not available"""
+    import shutil as _sh
+
+    if _sh.which("leanchecker") is None:
+        return None, "leanchecker not on PATH"
+    with BuildLock():
+        # make sure every .olean is materialised in the build directory (lake may keep an up-to-date module as hash + trace only)
+        subprocess.run(["lake", "build", *modules], capture_output=True, text=True, cwd=str(LEAN_DIR), timeout=timeout)
+        p = subprocess.run(["lake", "env", "leanchecker", *modules], capture_output=True, text=True, cwd=str(LEAN_DIR), timeout=timeout)
+    return p.returncode == 0, (p.stdout + p.stderr)
+
+
 def strip_lean_comments(src: str) -> str:
     # remove /- ... -/ (nested) and -- line comments; strings are left (no forbidden tokens there)
     out = []
